@@ -1,7 +1,7 @@
 """C06 — semaphore: never over-admits, never loses a post (structural part)."""
 from core import strip, is_field, key_mentions, order_ge
 from facts import AnalysisBroken
-from rules import (nodeset, ev, Unevaluable, forced_edges, atom_from, reach, atomic_ops, ret_const, is_var_load)
+from rules import (check_init, nodeset, ev, Unevaluable, forced_edges, atom_from, reach, atomic_ops, ret_const, is_var_load)
 import stale
 
 EXPLANATION = (
@@ -190,3 +190,4 @@ def run(ctx):
             if not (v.k == "DeclRefExpr" and v.did == wc[0]):
                 bad = bad or "returns `%s`, not the number of fibers woken" % r.text
     o.check(bad is None, "count semantics", bad, site=wq.loc, construct="mpmc waker")
+    check_init(ctx, P, "fiber_semaphore_init", [("fiber_semaphore", "counter", "param:value")], calls=["mpmc_fifo_init"])
